@@ -28,6 +28,7 @@ def MoveOKB (op : LM Bool) : Prop :=
 structure LBFaithful (S : Segmenter) (U : UData) : Prop where
   moveHome : MoveOKB (LB.moveHome S U)
   moveEnd : MoveOKB (LB.moveEnd S U)
+  moveToFirstPrint : MoveOKB (LB.moveToFirstPrint S U)
   moveBackward : ∀ n, MoveOKB (LB.moveBackward S U n)
   moveForward : ∀ n, MoveOKB (LB.moveForward S U n)
   moveToPrevWord : ∀ w n, MoveOKB (LB.moveToPrevWord S U w n)
@@ -593,6 +594,7 @@ theorem pres_execute (hctl : ∀ c, isC0Control c = true → U.cwidth c = 0) (cm
   have a3 := pres_refreshLineWithMsg hc hprompt (S := S) (U := U) (cfg := cfg)
   have m1 := pres_editMoveB hc hprompt (cfg := cfg) hf.moveHome
   have m2 := pres_editMoveB hc hprompt (cfg := cfg) hf.moveEnd
+  have m12 := pres_editMoveB hc hprompt (cfg := cfg) hf.moveToFirstPrint
   have m3 := fun n => pres_editMoveB hc hprompt (cfg := cfg) (hf.moveBackward n)
   have m4 := fun n => pres_editMoveB hc hprompt (cfg := cfg) (hf.moveForward n)
   have m5 := fun w n => pres_editMoveB hc hprompt (cfg := cfg) (hf.moveToPrevWord w n)
@@ -629,7 +631,7 @@ theorem pres_execute (hctl : ∀ c, isC0Control c = true → U.cwidth c = 0) (cm
     first | exact c3 n | exact Pres.bind (Pres.pure _) fun _ => c3 n
   | _ =>
     unfold execute
-    sh_pres [c1, c2, l1, l2, e5, a1, a2, a3, m1, m2, m3, m4, m5, m6, m7, m8, m9, m10, m11, b1, b2, b3, e1, e2, e3, e4,
+    sh_pres [c1, c2, l1, l2, e5, a1, a2, a3, m1, m2, m3, m4, m5, m6, m7, m8, m9, m10, m11, m12, b1, b2, b3, e1, e2, e3, e4,
       e6, e7, e8, e9, e10, e11, e12, e13]
     all_goals contradiction
 
